@@ -212,6 +212,8 @@ def judge_lib(r, d):
 
 
 def pending(sig):
+    if os.environ.get("VERIF_C17_NO_PENDING"):     # show the pending findings as violations (with replay files)
+        return None
     for p in PENDING_FINDINGS:
         if vlib.sig_matches(p["match"], sig):
             return p["what"]
@@ -420,7 +422,8 @@ def explore(chk, rep, cfgname, tables, timeout, rg_limit):
         chk.validated += nvar - nbad
         if bad:
             nfail += 1
-            continue
+            if nbad >= nvar:
+                continue
         for c in categories(r):
             cats[c] = cats.get(c, 0) + 1
         k = nontrivial_key(r)
